@@ -233,6 +233,26 @@ def tok_of(box):
     return box._c19tok
 
 
+class Refused(Exception):
+    """A constructor of the library raised while a box of the pool was being built.  A box whose
+    function really has another arity than declared (flavour badarity) may be refused when it is
+    built rather than when it is called — the property speaks about calls; any other box must be
+    constructible."""
+    def __init__(self, tok, m, n, exc, route="Box"):
+        Exception.__init__(self, "%s %d -> %d: %r" % (tok, m, n, exc))
+        self.tok, self.m, self.n, self.exc, self.route, self.flavour = tok, m, n, exc, route, "clean"
+
+
+def refused(rep, stream, e):
+    """Accounts for a Refused: counted for badarity boxes, a failure with its input otherwise."""
+    if e.flavour == "badarity":
+        rep.count("badarity:refused_by_constructor:" + err_class(e.exc))
+        return
+    rep.fail("box_construction_raises:pool",
+             dict(stream=stream, token=e.tok, dom=e.m, cod=e.n, route=e.route, flavour=e.flavour),
+             "a box %d -> %d around the pool function %s cannot be built: %r" % (e.m, e.n, e.tok, e.exc))
+
+
 def make_box(tok, m, n, name=None, wrap=None, via_disco=False):
     """A cartesian.Box declared m -> n around the pool function `tok`.
     name=None: the token is the name (and the library's own ADD/SWAP/COPY/DISCARD are used when
@@ -248,9 +268,12 @@ def make_box(tok, m, n, name=None, wrap=None, via_disco=False):
     given = cartesian.Id(int(tok.split(":")[1])) if tok.startswith("ident:") else fn
     if wrap is not None and not tok.startswith("ident:"):
         given = WRAPS[wrap](fn)
-    if via_disco and hasattr(given, "__name__"):
-        return tag(cartesian.disco(m, n)(given), tok, fn)
-    box = tag(cartesian.Box(tok if name is None else name, m, n, given), tok, fn)
+    try:
+        if via_disco and hasattr(given, "__name__"):
+            return tag(cartesian.disco(m, n)(given), tok, fn)
+        box = tag(cartesian.Box(tok if name is None else name, m, n, given), tok, fn)
+    except Exception as exc:
+        raise Refused(tok, m, n, exc, "disco" if via_disco else "Box")
     box._c19falsy = not given
     return box
 
@@ -263,7 +286,10 @@ def sub_box(name, inner):
 
     def fn(*xs):
         return pack_result(splice(dom, boxes, offsets, xs)[0])
-    return tag(cartesian.Box(name, len(inner.dom), len(inner.cod), inner), None, fn)
+    try:
+        return tag(cartesian.Box(name, len(inner.dom), len(inner.cod), inner), None, fn)
+    except Exception as exc:
+        raise Refused("sub-diagram " + safe_repr(inner, 120), len(inner.dom), len(inner.cod), exc)
 
 
 def safe_repr(x, cap=300):
@@ -502,8 +528,12 @@ class Gen:
                 n = 1
                 if width - m + 1 > self.W:
                     m = 1
-            out.append((self.box(self.token(m, n, fl), m, n, clean=(fl == "clean")),
-                        r.randint(0, width - m)))
+            try:
+                box = self.box(self.token(m, n, fl), m, n, clean=(fl == "clean"))
+            except Refused as e:
+                e.flavour = fl
+                raise
+            out.append((box, r.randint(0, width - m)))
             self.seen.append((m, n))
             width = width - m + n
         return out, width
@@ -645,7 +675,10 @@ class TGen(Gen):
             fn = given = py_prim(tok)
         routes = [x for x in ROUTES if hasattr(given, "__name__") or x not in NEED_NAME]
         route = r.choice(routes)
-        box = route_box(route, r.choice(SHARED_NAMES + [tok, tok]), m, n, given)
+        try:
+            box = route_box(route, r.choice(SHARED_NAMES + [tok, tok]), m, n, given)
+        except Exception as exc:
+            raise Refused(tok, m, n, exc, route)
         tag(box, None if kind in UNMODELLED else tok, fn)
         box._c19given, box._c19route = given, route
         self.rep.count("route:" + route)
@@ -1245,7 +1278,11 @@ def run(tier, seed, replay=None):
             depth = r.choice([0, 1, 1, 2, 3]) if r.random() < 0.3 else r.randint(0, D)
             roll = k % 20
             flavour = "tuplewire" if roll in (17,) else "badarity" if roll in (18, 19) else "clean"
-            layers, cod = g.layers(dom, depth, flavour)
+            try:
+                layers, cod = g.layers(dom, depth, flavour)
+            except Refused as e:
+                refused(rep, "call", e)
+                continue
             rep.count("flavour:" + flavour)
             rep.count("depth:%s" % (depth if depth < 11 else "11+"))
             rep.count("width:%d" % dom)
@@ -1393,7 +1430,11 @@ def run(tier, seed, replay=None):
                 t = g.token(m, m, "clean")
                 if t not in toks and not t.startswith(("pack", "ident")):
                     toks.append(t)
-            bs = [make_box(t, m, m, name=name, via_disco=(name == "<lambda>")) for t in toks]
+            try:
+                bs = [make_box(t, m, m, name=name, via_disco=(name == "<lambda>")) for t in toks]
+            except Refused as e:
+                refused(rep, "samename", e)
+                continue
             if m == 2 and name == "swap":
                 bs[r.randrange(count)] = cartesian.SWAP
             if m == 1 and r.random() < 0.3:
@@ -1419,27 +1460,31 @@ def run(tier, seed, replay=None):
         for k in range(400 if thorough else 90):
             r = random.Random(rng.getrandbits(64))
             g = Gen(r, W, D)
-            pre, w = g.layers(r.randint(0, W), r.randint(0, 3))
-            kind = ("ident", "sub", "wrap", "unit")[k % 4]
-            if kind == "ident":
-                m = r.randint(0, min(3, w))
-                special = make_box("ident:%d" % m, m, m, name=r.choice(["wires", "id", "f"]))
-            elif kind == "unit":
-                special = make_box("ident:0", 0, 0, name="unit")
-            elif kind == "sub":
-                a = r.randint(0, min(3, w))
-                gi = Gen(r, min(W, W - (w - a)), 4)
-                il, ic = gi.layers(a, r.randint(0, 4))
-                inner = build_public(a, ic, il) if r.random() < 0.5 else build_ops(r, a, il)
-                special = sub_box(r.choice(["sub", "f", "<lambda>"]), inner)
-            else:
-                m = r.randint(0, min(3, w))
-                n = r.randint(0, min(3, W - (w - m)))
-                special = make_box(g.token(m, n, "clean"), m, n, wrap=r.choice(sorted(WRAPS)),
-                                   name=r.choice([None, "lookup", "f"]))
-            sm, sn = len(special.dom), len(special.cod)
-            off = r.randint(0, w - sm)
-            post, cod = g.layers(w - sm + sn, r.randint(0, 3))
+            try:
+                pre, w = g.layers(r.randint(0, W), r.randint(0, 3))
+                kind = ("ident", "sub", "wrap", "unit")[k % 4]
+                if kind == "ident":
+                    m = r.randint(0, min(3, w))
+                    special = make_box("ident:%d" % m, m, m, name=r.choice(["wires", "id", "f"]))
+                elif kind == "unit":
+                    special = make_box("ident:0", 0, 0, name="unit")
+                elif kind == "sub":
+                    a = r.randint(0, min(3, w))
+                    gi = Gen(r, min(W, W - (w - a)), 4)
+                    il, ic = gi.layers(a, r.randint(0, 4))
+                    inner = build_public(a, ic, il) if r.random() < 0.5 else build_ops(r, a, il)
+                    special = sub_box(r.choice(["sub", "f", "<lambda>"]), inner)
+                else:
+                    m = r.randint(0, min(3, w))
+                    n = r.randint(0, min(3, W - (w - m)))
+                    special = make_box(g.token(m, n, "clean"), m, n, wrap=r.choice(sorted(WRAPS)),
+                                       name=r.choice([None, "lookup", "f"]))
+                sm, sn = len(special.dom), len(special.cod)
+                off = r.randint(0, w - sm)
+                post, cod = g.layers(w - sm + sn, r.randint(0, 3))
+            except Refused as e:
+                refused(rep, "hier", e)
+                continue
             layers = pre + [(special, off)] + post
             # the domain the `pre` layers started from
             start = w
@@ -1472,8 +1517,12 @@ def run(tier, seed, replay=None):
                     names=("unique", "disco", "few")[k % 3])
             r = g.rng
             fd, gd = r.randint(0, SW), r.randint(0, SW)
-            fl, fc = g.layers(fd, r.randint(0, 5))
-            gl, gc = g.layers(gd, r.randint(0, 5))
+            try:
+                fl, fc = g.layers(fd, r.randint(0, 5))
+                gl, gc = g.layers(gd, r.randint(0, 5))
+            except Refused as e:
+                refused(rep, "natural", e)
+                continue
             f, h = build_public(fd, fc, fl), build_public(gd, gc, gl)
             xs, ys = g.inputs(fd), g.inputs(gd)
             laws = [
@@ -1511,7 +1560,11 @@ def run(tier, seed, replay=None):
             mode = ("numeric", "mixed", "mixed")[k % 3]
             g = TGen(r, 5, 5, mode, rep)
             dom = r.randint(0, 4)
-            layers, cod = g.layers(dom, r.randint(1, 5))
+            try:
+                layers, cod = g.layers(dom, r.randint(1, 5))
+            except Refused as e:
+                refused(rep, "history", e)
+                continue
             rep.count("history:mode_" + mode)
             how = "public" if k % 2 == 0 else "ops"
             try:
@@ -1573,7 +1626,11 @@ def run(tier, seed, replay=None):
             r = random.Random(rng.getrandbits(64))
             g = TGen(r, 5, 5, ("numeric", "mixed")[k % 2], rep)
             dom = r.randint(0, 4)
-            layers, cod = g.layers(dom, r.randint(0, 4))
+            try:
+                layers, cod = g.layers(dom, r.randint(0, 4))
+            except Refused as e:
+                refused(rep, "function", e)
+                continue
             bs, os_ = [b for b, _ in layers], [o for _, o in layers]
             try:
                 F, width = Function.id(dom), dom
